@@ -171,6 +171,7 @@ func (s *Solver) Check(pc []*Term, extra ...*Term) SatResult {
 	}
 	nerr := len(s.Errors)
 	s.syncTo(full)
+	s.declare()
 	s.send("(check-sat)")
 	r := s.readResult()
 	if len(s.Errors) != nerr {
